@@ -137,6 +137,10 @@ def check(prog, res, tier):
                 in_handler = True
         if in_handler or getattr(exc, 'unit', None) is not None:
             return []
+        # a rejection taken because a length numeral is not plain decimal digits is a don't-care of the property
+        for kind, truth, data in p.facts:
+            if kind in ('isdigit', 'isdecimal', 'isnumeric') and not truth:
+                return []
         st = p.store
         extra = []
         for s in list(st.iv):
